@@ -1022,10 +1022,12 @@ F32 = 'F32-same-width-ext-trunc-of-compound'
 F33 = 'F33-folded-constant-recomputed-narrow'
 F34 = 'F34-loop-variable-named-like-global'
 D1 = 'D1-descending-loop-variable-as-value'
+T3 = 'T3-folded-constant-in-struct-field'
+T4 = 'T4-negative-integer-constant'
 D2 = 'D2-same-child-port-to-port-connection'
 D3 = 'D3-same-operator-nesting'
-T1 = 'T1-select-of-computed-value'
-T2 = 'T2-single-field-struct-instance-bare'
+T1 = 'regression-T1-select-of-computed-value'             # repaired d462da9: rejected by the type checker / yosys keeps the concatenation text
+T2 = 'regression-T2-single-field-struct-instance'           # repaired f402609: a compound value of a one-field struct instance is parenthesised
 F38 = 'F38-bool-constant-attribute'
 F39 = 'F39-if-expression-loop-bound'
 F35 = 'F35-chained-assignment-sole-body-without-begin-end'
@@ -1041,8 +1043,8 @@ FINDING_STREAMS = {
 # labelled streams of confirmed defects that are neither registered as known findings nor repaired yet: a check runs such a
 # stream only once known_findings.json has an entry of its property whose match.finding is the stream id
 PENDING_STREAMS = {
-  T1: (('verilog', 'yosys'), ('syntax-invalid',)),
-  T2: (('verilog', 'yosys'), ('output-mismatch',)),
+  T3: (('verilog', 'yosys'), ('output-mismatch',)),      # Foo( s.x, 2*s.N ) -> { x, 3'd6 }: the folded literal keeps its minimal width inside the concatenation
+  T4: (('verilog', 'yosys'), ('syntax-invalid',)),       # s.OFF = -2 / closure k = -2 read in a pure-int comparison -> 1'd-2
 }
 
 def registered(fid, pid):
@@ -1062,6 +1064,7 @@ FIXED_STREAMS = {
   F31: ('verilog', 'yosys'), F32: ('verilog', 'yosys'), F33: ('verilog', 'yosys'), F34: ('verilog', 'yosys'),
   F38: ('verilog', 'yosys'), F39: ('verilog', 'yosys'),
   D2: ('verilog', 'yosys'),   # directed: the parent connects two ports of the SAME child (rejected on the current tree: counted; seeded C03-7); control: via a parent wire
+  T1: ('verilog', 'yosys'), T2: ('verilog', 'yosys'),
   D3: ('verilog', 'yosys'),   # directed: right-nested chains of -, >>, <<, % with operand values for which the groupings differ (seeded C03-8)
   D1: ('verilog',),       # directed (not a repaired defect): descending loops whose variable is used as a VALUE of its own width (seeded C03-2); yosys rejects negative steps
 }
@@ -1285,7 +1288,7 @@ def gen_finding(rng, be, fid):
       c_ = rng.randint(2, 3); q_ = rng.randint(1, 2); r_ = rng.randint(1, c_ - 1)
       fixed_cycles.append({'.a': rng.getrandbits(W) | (1 << (W - 1)) | 1, '.b': c_ * q_ + r_, '.c': c_, '.reset': 0})
   elif fid == T1:
-    variant = rng.choice(['cast', 'trunc'] + (['concat-index'] if be == 'yosys' else []))
+    variant = rng.choice(['cast', 'trunc', 'concat-index'])
     W = rng.choice([4, 8])
     e = rng.choice(['s.a if s.c else s.b', 's.a + s.b', 's.a & s.b'])
     k = rng.randint(0, W - 1); lo = rng.randint(0, W - 2); hi = rng.randint(lo + 1, W)
@@ -1294,6 +1297,21 @@ def gen_finding(rng, be, fid):
     if variant == 'cast': L += [f'      s.o1 @= Bits{W}( {e} )[{k}]', f'      s.o2 @= Bits{W}( {e} )[{lo}:{hi}]']
     elif variant == 'trunc': L += [f'      s.o1 @= trunc( concat( s.a, s.b ) + 1, {W} )[{k}]', f'      s.o2 @= trunc( {e}, {W} )[{lo}:{hi}]']
     else: L += [f'      s.o1 @= concat( s.a, s.b )[{k}]', f'      s.o2 @= zext( s.a, {W + 4} )[{lo}:{hi}]']
+  elif fid == T3:
+    W = rng.choice([4, 8]); K = rng.choice([6, 8])
+    N = rng.randint(1, 3); m = rng.randint(2, 3)
+    e = rng.choice([f'{m}*s.N', f's.N+{m}', f'{m}*{N}'])
+    L[1:1] = ['@bitstruct', 'class Foo:', f'  v: Bits{W}', f'  k: Bits{K}', '']
+    L += ['class Top( Component ):', '  def construct( s ):', f'    s.x = InPort( Bits{W} )', '    s.o = OutPort( Foo )', '    s.q = OutPort( Bits1 )', f'    s.N = {N}',
+          '    @update', '    def up():', f'      s.o @= Foo( s.x, {e} )', f'      s.q @= Foo( s.x, {e} ) == Foo( s.x, {rng.randint(1, 9)} )']
+  elif fid == T4:
+    variant = rng.choice(['attribute', 'closure', 'global'])
+    v = -rng.randint(1, 9)
+    name = {'attribute': 's.OFF', 'closure': 'k', 'global': 'GOFF'}[variant]
+    if variant == 'global': L[1:1] = [f'GOFF = {v}', '']
+    L += ['class Top( Component ):', '  def construct( s ):', '    s.a = InPort( Bits8 )', '    s.o = OutPort( Bits8 )'] + \
+         ([f'    s.OFF = {v}'] if variant == 'attribute' else [f'    k = {v}'] if variant == 'closure' else []) + \
+         ['    @update', '    def up():', f"      if {name} < {rng.choice([0, 1])}:", f"        s.o @= s.a {rng.choice('+^')} {rng.randint(1, 200)}", '      else:', '        s.o @= s.a']
   elif fid == T2:
     W = rng.choice([4, 8])
     op = rng.choice('&|^')
@@ -1376,8 +1394,9 @@ def gen_finding(rng, be, fid):
     return {'src': '\n'.join(L) + '\n', 'label': fid + ':' + variant, 'finding': fid, 'variant': variant, 'expect': FINDING_STREAMS[fid][1],
             'features': ['finding-stream'], 'cycles': fixed_cycles}
   if fid in FIXED_STREAMS:
-    d = {'src': '\n'.join(L) + '\n', 'label': 'fixed:' + fid + (':' + variant if variant else ''), 'features': ['fixed-defect-shape']}
+    d = {'src': '\n'.join(L) + '\n', 'label': ('' if fid.startswith('regression-') else 'fixed:') + fid + (':' + variant if variant else ''), 'features': ['fixed-defect-shape']}
     if fid == D3: d['cycles'] = fixed_cycles
+    if fid == T1 and variant != 'concat-index': d['must_reject'] = 'cannot select bits of a computed value'
     return d
   if fid in PENDING_STREAMS:
     return {'src': '\n'.join(L) + '\n', 'label': fid + (':' + variant if variant else ''), 'finding': fid, 'variant': variant,
